@@ -9,8 +9,9 @@ VERIF = Path(__file__).resolve().parents[2]
 
 TB = ("Lean 4.33 kernel; axioms propext/Classical.choice/Quot.sound only (audited by #print axioms each run); "
       "hand-written Lean model tied to /repo by the correspondence streams (harness/props/{id}.py) with exact "
-      "float->Q conversion and a relative tolerance for IEEE rounding; torch primitives and transcendental functions "
-      "are modelled/assumed, not verified")
+      "float->Q conversion and a relative tolerance for IEEE rounding, and (C01-C04, C07, C08, C11-C14, C16, C17) by Lean "
+      "definitions regenerated from the current source on every run (harness/lib/pytrans.py, trusted) and proved equal to "
+      "the model (harness/gen/*.lean.in); torch primitives and transcendental functions are modelled/assumed, not verified")
 
 CLAIMS = {
     "C01": dict(
@@ -259,7 +260,9 @@ def main() -> int:
             "name": "lean4-model+correspondence", "path": "/verif/lean + /verif/harness",
             "serves_properties": sorted(CLAIMS),
             "kind_free_text": "Lean 4 theorems about a hand-written executable model (lean/Deepali) + correspondence check "
-                              "driving model and implementation with the same inputs (harness/check.py)",
+                              "driving model and implementation with the same inputs (harness/check.py) + a Python-subset "
+                              "to Lean translator that regenerates selected definitions from the source on every run, "
+                              "with theorems equating them to the model (harness/lib/pytrans.py, harness/gen)",
         }],
         "checks": checks,
         "not_applicable": na,
